@@ -28,6 +28,8 @@ Tr == IF Mode = "trace" THEN ndJsonDeserialize(IOEnv.TRACE) ELSE <<>>
 Verdict(e) ==
     CASE e.op = "prog" -> [ok |-> e.r = "ok", decoded |-> e.out = DecProg(e.bytes), reencodes |-> Take(e.bytes, Len(EncProg(DecProg(e.bytes)))) = EncProg(DecProg(e.bytes))]
       [] e.op = "rec" -> [ok |-> e.r = "ok", decoded |-> e.out = DecRec(e.bytes)]
+      [] e.op = "scalar" -> [ok |-> e.r = "ok", known_index |-> e.idx \in ScalarIdx, value |-> e.out = RenderScalar(e.idx, e.bytes)]
+      [] e.op = "bof" -> [ok |-> e.r = "ok", name |-> e.out = BofAllocatorName(e.v)]
       [] e.op = "gate" -> LET v == [i \in AllApis |-> e.flags[i] # 0] IN
                           [ok |-> e.r = "ok", groups |-> e.groups = Groups(v).groups, rest |-> e.rest = Groups(v).rest]
 Failed(v) == { k \in DOMAIN v : ~v[k] }
